@@ -181,6 +181,8 @@ REGEX_RULES = [
     ('R2:closure-wildcard', r"\|_\|", r"|_u|"),
     ('R15:try_into-unwrap', r"let chunk: &mut \[u8; N\] = chunk\.try_into\(\)\.unwrap\(\);", r"let chunk: &mut [u8; N] = crate::vf::slice_as_array_mut(chunk);"),
     ('R16:cmp-min', r"core::cmp::min\(", r"crate::vf::min_u32("),
+    ('R27:filter-annotated', r"self\.draw_batch\(\n(\s*)item\.into_iter\(\)\n(\s*)\.filter\(\|pixel\| bounding_box\.contains\(pixel\.0\)\),\n(\s*)\)",
+     r"{ let ghost vf_y0 = crate::vf::iter_yields(item); let vf_f =\n\1crate::vf::filter_lawful(crate::vf::into_iter(item),\n\2 |pixel: &Pixel<M::ColorFormat>| -> (keep: bool) ensures keep == crate::vf::rect_contains(bounding_box, pixel.0.x as int, pixel.0.y as int) { bounding_box.contains(pixel.0) }, Ghost(crate::vf::in_rect::<M::ColorFormat>(bounding_box))); let ghost vf_gf = vf_f; proof { vf_lemma_filtered_inb(vf_y0, bounding_box); assert(crate::vf::iter_yields(vf_gf) == vf_y0.filter(crate::vf::in_rect::<M::ColorFormat>(bounding_box))); assert(bounding_box == self.bbox()); assert(bounding_box.size.width as int == self.lsize().0 && bounding_box.size.height as int == self.lsize().1); assert(crate::vf::iter_lawful(vf_gf)); assert(self.wf()); crate::batch::lemma_db_pre(&*self, vf_gf); }\n\3let ghost vf_d0 = *self; let vf_r = self.draw_batch(vf_f); proof { crate::batch::lemma_db_post(&vf_d0, &*self, vf_gf, vf_r); } vf_r }"),
     ('R9:into_iter', r"\b(pixels|item_pixels|colors)\.into_iter\(\)", r"crate::vf::into_iter(\1)"),
     ('D6:reject-recursive', r"pub struct (RowIterator|BlockIterator)<C, (P|R)>", r"#[verifier::reject_recursive_types(C)] #[verifier::reject_recursive_types(\2)] pub struct \1<C, \2>"),
     ('D6:reject-recursive', r"pub struct (PixelRow|PixelBlock)<C>", r"#[verifier::reject_recursive_types(C)] pub struct \1<C>"),
@@ -403,7 +405,9 @@ def rewrite_forloops(text, contracts, counts):
             lead = expr[:len(expr) - len(expr.lstrip())]
             trail = expr[len(expr.rstrip()):]
             init = ('crate::vf::into_iter(%s)' % e2) if mode == 'into' else (('crate::vf::array_into_iter(%s)' % e2) if mode == 'array' else e2)
-            new_hdr = '{ let mut %s = %s%s;%s loop { match %s.next() { Some(%s) => {' % (itname, lead, init, trail, itname, pat.strip() + pat[len(pat.rstrip()):])
+            # mode `twin`: the iterator is a BlockIterator, whose `next` is verified as the inherent twin `vf_next` (R19)
+            nxt = 'vf_next' if mode == 'twin' else 'next'
+            new_hdr = '{ let mut %s = %s%s;%s loop { match %s.%s() { Some(%s) => {' % (itname, lead, init, trail, itname, nxt, pat.strip() + pat[len(pat.rstrip()):])
             if new_hdr.count('\n') != text[kwi:o + 1].count('\n'):
                 # keep the line count: pad or fail
                 diff = text[kwi:o + 1].count('\n') - new_hdr.count('\n')
